@@ -138,10 +138,44 @@ class C18(Check):
             if a < len(devs) and b < len(devs) and a != b:
                 devs[a].terms.update(devs[b].terms) if not set(devs[a].terms) & set(devs[b].terms) else None
         sg = SyncGroup(ec, devs)
-        try:
-            sg.allocate()
-        except OverflowError:
-            return Err(3, "overflow")
+        restarted = False
+        bigger = [dict(s_, **{"in": s_["in"] + 3, "out": s_["out"] + 1}) for s_ in case["terms"]]
+        if case["groups_before"] % 4 == 1 and self.need(bigger) <= 1300 and sum(3 for _ in bigger) <= 15 and self.need(case["terms"]) <= 1300:
+            # the group object had a first life (start(), run() ended) while its terminals had OTHER process data sizes; it is then
+            # started again: the frame must follow the terminals as they are now
+            import asyncio
+
+            async def first_life():
+                async def nothing():
+                    return None
+                sg.run = nothing
+                for t in terms:
+                    t.pdo_in_sz, t.pdo_out_sz = (t.pdo_in_sz or 0) + 3, (t.pdo_out_sz or 0) + 1
+                try:
+                    await sg.start()
+                    ok = True
+                except OverflowError:
+                    ok = False
+                for t in terms:
+                    t.pdo_in_sz, t.pdo_out_sz = t.pdo_in_sz - 3, t.pdo_out_sz - 1
+                if ok:
+                    try:
+                        await sg.start()
+                    except OverflowError:
+                        return "overflow"
+                return ok
+            r = asyncio.run(first_life())
+            if r == "overflow":
+                case["_nwin"] += 1
+                return Err(3, "overflow")
+            if r:
+                restarted = True
+                case["_nwin"] += 1
+        if not restarted:
+            try:
+                sg.allocate()
+            except OverflowError:
+                return Err(3, "overflow")
         assign = []
         for t in terms:
             row = []
@@ -277,7 +311,7 @@ class C18(Check):
 
     def rule(self):
         return ("terminal sets of 1-12 terminals: FMMU / direct / Aerotech-style allocators, in/out sizes 0..800 (15% zero; 25% of sets sized to land near the "
-                "1500-byte limit), read-write flags (40% of the terminals are used by 2-3 devices with different access, the terminal is written if any of them writes), 0..5000 earlier sync groups on the same master (their logical windows must stay distinct), 30% with an allocated group and then a REJECTED group before the one under test; non-trivial = at least two regions allocated")
+                "1500-byte limit), read-write flags (40% of the terminals are used by 2-3 devices with different access, the terminal is written if any of them writes), 0..5000 earlier sync groups on the same master (their logical windows must stay distinct), 30% with an allocated group and then a REJECTED group before the one under test; a quarter of the (small enough) cases through start(): the group object had a first life while its terminals had other process data sizes and is started again; non-trivial = at least two regions allocated")
 
     def distribution(self, cases, observed):
         d = {"rejected": 0, "terminals": 0, "aero": 0, "direct": 0, "fmmu": 0}
